@@ -31,6 +31,14 @@ def _init(prefix, modname, shard, setup_args, fn="replay", case_timeout=None):
         _W["mod"].worker_setup(*setup_args)
 
 
+def _side_record(t, clause, what, detail=""):
+    _W["side"] = _W.get("side", 0) + 1
+    hp = "%s_hang_w%05d.ndjson" % (_W["prefix"], os.getpid())
+    with open(hp, "a") as fh:
+        fh.write(json.dumps({"fam": _W["modname"], "clause": clause, "op": what, "record": t, "detail": detail,
+                             "k": "%s:%d" % (os.path.basename(hp), _W["side"])}) + "\n")
+
+
 def _opname(t):
     if isinstance(t, dict):
         op = t.get("op")
@@ -61,10 +69,15 @@ def _work(chunk):
         except CaseHang:
             signal.setitimer(signal.ITIMER_REAL, 0)
             _W["hangs"] += 1
-            hp = "%s_hang_w%05d.ndjson" % (_W["prefix"], os.getpid())
-            with open(hp, "a") as fh:
-                fh.write(json.dumps({"fam": _W["modname"], "hang": True, "op": _opname(t), "record": t,
-                                     "k": "%s:%d" % (os.path.basename(hp), _W["hangs"])}) + "\n")
+            _side_record(t, "CallReturns", _opname(t))
+        except C.MachineryError:
+            raise
+        except Exception as e:
+            # a public call the harness makes outside an observed operation (building, projecting, rendering a path)
+            # raised: with a correct library this never happens, so it is reported - as an observation, not as a crash
+            signal.setitimer(signal.ITIMER_REAL, 0)
+            import traceback
+            _side_record(t, "NoUnexpectedException", type(e).__name__, traceback.format_exc()[-1500:])
     if w.f:
         w.f.flush()
     for sw in _W.get("streams", {}).values():
@@ -91,5 +104,5 @@ def replay_stream(chunks, modname, prefix, shard=15000, procs=None, setup_args=(
         HANG_FILES.append(hp)
         for line in open(hp):
             r = json.loads(line)
-            HANG_VERDICTS.append(["VIOL", "*", "CallReturns", r["k"], [modname, r["op"]]])
+            HANG_VERDICTS.append(["VIOL", "*", r.get("clause", "CallReturns"), r["k"], [modname, r["op"]]])
     return total, files
